@@ -1,8 +1,33 @@
 /-
-Model/DictIface.lean — parameter tiling of the functional interface getBH_dict_level2 (C07).
-The code decides from `val.ndim` and the class's `_field_func_kwargs_ndim` entry whether a
-parameter is a stack of per-instance values or one value to be tiled.
+Model/DictIface.lean — the functional interface `getBH_dict_level2` (field_wrap_BH.py) as it is written (C07).
+
+    getB("Cuboid", observers, dimension=…, polarization=…, position=…, orientation=…, squeeze=…)
+
+What is modelled, in the code's order:
+* class lookup in the registry (`KeyError` → MagpylibBadUserInput);
+* the table `{"position": 2, "orientation": 2, "observers": 2}` updated with the class's
+  `_field_func_kwargs_ndim`; a keyword that is in neither has expected rank 1 (`.get(key, 1)`);
+* first loop, keywords in call order, then observers, position, orientation: conversion to a float array
+  (`convert`: Python numbers, arrays, lists of arrays — ragged detection on the TOP-LEVEL lengths only, a list of
+  arrays of equal length but different deeper shapes raises ValueError, `None` is the TypeError → MagpylibBadUserInput
+  exit, `[]` / a 0-d ndarray leak an IndexError from `val[0]`), then `secure`: only a value whose rank EQUALS the
+  expected rank (or a ragged one) is looked at — length 1 ⇒ `np.squeeze` (ALL unit axes go), otherwise its length is
+  recorded in `vec_lengths`;
+* `len(set(vec_lengths.values())) > 1` → MagpylibBadUserInput, `vec_len = max(…, default=1)` (`agree`);
+* second loop: every non-ragged value of rank < expected is `np.tile`d with reps `(vec_len, 1, …, 1)` (`Arr.tile`);
+  a value of rank > expected is handed on untouched (`Treat.passThrough`);
+* `getBH_level1`: observers into the source frame, ONE call of the field function on the n rows, result rotated back;
+  `np.squeeze` of the (n, 3) result if `squeeze`.
+
+Pose keywords (observers / position / orientation) are `Given`: one value or a stack of values (well-formed input:
+the last axis is 3, rank 1 or 2; `orientation` is a scipy Rotation whose `as_quat()` is a (4,) or (m, 4) array —
+the quaternion round trip `from_quat(tile(as_quat()))` is modelled as tiling the rotations).  Assumed, exercised by
+the `dict` correspondence stream: numpy's `tile` / `squeeze` / `array` semantics as written in `Arr`; the field
+function is row-wise (`F` receives the i-th slice of every argument — row independence of the real field functions is
+C05/C06's subject).
 -/
+import MagpyVerif.Model.Level2
+
 namespace MagpyVerif.DictIface
 
 /-- how the code treats a parameter of rank `ndim` when the table expects `expected` -/
@@ -15,7 +40,7 @@ inductive Treat where
 def treat (expected ndim : Nat) : Treat :=
   if ndim = expected then .stack else if ndim < expected then .tile else .passThrough
 
-/-- a parameter as the user gives it -/
+/-- a pose parameter as the user gives it -/
 inductive Given (α : Type) where
   | single (v : α)
   | stack (vs : List α)
@@ -25,11 +50,13 @@ def Given.len? {α : Type} : Given α → Option Nat
   | .single _ => none
   | .stack vs => if vs.length = 1 then none else some vs.length
 
-/-- `vec_len`: all counted lengths must agree; 1 if none is counted -/
-def vecLen {α : Type} (gs : List (Given α)) : Option Nat :=
-  match gs.filterMap Given.len? with
+/-- `len(set(lengths)) > 1` → rejected; `max(lengths, default=1)` -/
+def agree : List Nat → Option Nat
   | [] => some 1
   | n :: ns => if ns.all (· = n) then some n else none
+
+/-- `vec_len`: all counted lengths must agree; 1 if none is counted -/
+def vecLen {α : Type} (gs : List (Given α)) : Option Nat := agree (gs.filterMap Given.len?)
 
 /-- rows handed to the core function -/
 def rows {α : Type} (n : Nat) : Given α → List α
@@ -37,5 +64,165 @@ def rows {α : Type} (n : Nat) : Given α → List α
   | .stack vs => match vs with
     | [x] => List.replicate n x
     | _ => vs
+
+/-- the value that row `i` uses: the single value, the only value of a length-1 stack, the i-th of a stack -/
+def pick {α : Type} (i : Nat) : Given α → Option α
+  | .single v => some v
+  | .stack vs => if vs.length = 1 then vs[0]? else vs[i]?
+
+/-! ### arrays -/
+
+/-- a float array: shape and row-major data -/
+structure Arr (α : Type) where
+  shape : List Nat
+  data : List α
+  deriving Repr, BEq, DecidableEq
+
+namespace Arr
+variable {α : Type}
+def ndim (a : Arr α) : Nat := a.shape.length
+/-- `len(val)` (rank ≥ 1) -/
+def len (a : Arr α) : Nat := a.shape.headD 0
+def prod (s : List Nat) : Nat := s.foldr (· * ·) 1
+/-- number of scalars in one slice along the first axis -/
+def stride (a : Arr α) : Nat := prod a.shape.tail
+/-- `val[i]` -/
+def row (a : Arr α) (i : Nat) : Arr α := ⟨a.shape.tail, (a.data.drop (i * a.stride)).take a.stride⟩
+/-- `np.squeeze(val)`: every axis of length 1 is dropped -/
+def squeeze (a : Arr α) : Arr α := ⟨a.shape.filter (· ≠ 1), a.data⟩
+/-- `np.tile(val, (n, 1, …, 1))` with `e` repetition counts, for `val.ndim < e`: `val` is promoted to rank `e` by
+prepending unit axes, then repeated `n` times along the first one -/
+def tile (e n : Nat) (a : Arr α) : Arr α :=
+  ⟨n :: (List.replicate (e - 1 - a.ndim) 1 ++ a.shape), (List.replicate n a.data).flatten⟩
+/-- shape and data fit -/
+def WF (a : Arr α) : Prop := a.data.length = prod a.shape
+end Arr
+
+/-- a keyword value as the caller writes it -/
+inductive Val (α : Type) where
+  /-- a Python / numpy number (`isinstance(val, numbers.Number)`) -/
+  | num (x : α)
+  /-- an ndarray or homogeneous nested sequence of rank ≥ 1 with no empty axis -/
+  | arr (a : Arr α)
+  /-- a Python list of arrays of rank ≥ 1 (possibly of different shapes) -/
+  | seq (rows : List (Arr α))
+  /-- `None`: `val[0]` raises TypeError -/
+  | notSubscriptable
+  /-- `[]` or a 0-d ndarray: `val[0]` raises IndexError (not caught by the code) -/
+  | emptyOrZeroDim
+
+inductive CallErr where
+  | badUserInput | indexError | valueError
+  deriving Repr, DecidableEq
+
+/-- what `np.array(...)` of the first loop yields: a float array or a 1-d object array of float arrays -/
+inductive Conv (α : Type) where
+  | arr (a : Arr α)
+  | ragged (rows : List (Arr α))
+
+variable {α : Type}
+
+/-- the `try:` block of the first loop -/
+def convert : Val α → Except CallErr (Conv α)
+  | .num x => .ok (.arr ⟨[], [x]⟩)
+  | .arr a => .ok (.arr a)
+  | .seq [] => .error .indexError
+  | .seq (r0 :: rs) =>
+    if (r0 :: rs).any (fun o => o.len != r0.len) then .ok (.ragged (r0 :: rs))
+    else if rs.all (fun o => o.shape == r0.shape) then
+      .ok (.arr ⟨(r0 :: rs).length :: r0.shape, (r0 :: rs).flatMap (·.data)⟩)
+    else .error .valueError
+  | .notSubscriptable => .error .badUserInput
+  | .emptyOrZeroDim => .error .indexError
+
+/-- the rest of the first loop: `if val.ndim == expected_dim or ragged: if len(val) == 1: squeeze else: count` -/
+def secure (e : Nat) : Conv α → Conv α × Option Nat
+  | .ragged rs => (.ragged rs, if rs.length = 1 then none else some rs.length)
+  | .arr a =>
+    if treat e a.ndim = .stack then
+      (if a.len = 1 then (.arr a.squeeze, none) else (.arr a, some a.len))
+    else (.arr a, none)
+
+/-- the second loop: `if val.ndim < expected_dim and not ragged: np.tile(val, (vec_len, 1, …))` -/
+def tileArg (e n : Nat) : Conv α → Conv α
+  | .ragged rs => .ragged rs
+  | .arr a => if treat e a.ndim = .tile then .arr (a.tile e n) else .arr a
+
+/-- `val[i]` of what the field function receives -/
+def Conv.row (i : Nat) : Conv α → Arr α
+  | .arr a => a.row i
+  | .ragged rs => rs.getD i ⟨[], []⟩
+
+/-- the functional call -/
+structure Call (G V α : Type) where
+  /-- keyword arguments in call order -/
+  params : List (String × Val α)
+  observers : Given V
+  position : Given V
+  orientation : Given G
+  squeeze : Bool
+
+/-- what `getBH_level1` is called with -/
+structure Marshalled (G V α : Type) where
+  n : Nat
+  args : List (String × Conv α)
+  observers : List V
+  position : List V
+  orientation : List G
+
+/-- `field_func_kwargs_ndim.get(key, 1)` -/
+def expected (table : List (String × Nat)) (key : String) : Nat := (table.lookup key).getD 1
+
+variable {G V : Type}
+
+/-- both loops of getBH_dict_level2 -/
+def marshal (table : List (String × Nat)) (c : Call G V α) : Except CallErr (Marshalled G V α) :=
+  match c.params.mapM (fun (kv : String × Val α) =>
+      (convert kv.2).map fun cv => (kv.1, secure (expected table kv.1) cv)) with
+  | .error e => .error e
+  | .ok secured =>
+    let lens := secured.filterMap (·.2.2) ++
+      [c.observers.len?, c.position.len?, c.orientation.len?].filterMap id
+    match agree lens with
+    | none => .error .badUserInput
+    | some n => .ok {
+        n := n
+        args := secured.map fun (k, cv, _) => (k, tileArg (expected table k) n cv)
+        observers := rows n c.observers
+        position := rows n c.position
+        orientation := rows n c.orientation }
+
+/-- the i-th parameter set: the i-th slice of every argument -/
+def paramSet (m : Marshalled G V α) (i : Nat) : List (String × Arr α) :=
+  m.args.map fun (k, cv) => (k, cv.row i)
+
+section
+variable [Inv G] [SMul G V] [Sub V] [Zero V]
+
+/-- the observers the field function receives: `orientation.apply(observers - position, inverse=True)` -/
+def localObs (m : Marshalled G V α) : List V :=
+  (List.range m.n).map fun i =>
+    match m.orientation[i]?, m.position[i]?, m.observers[i]? with
+    | some r, some p, some x => r⁻¹ • (x - p)
+    | _, _, _ => 0
+
+/-- getBH_level1 on the marshalled rows: field function (row-wise `F`), result rotated back -/
+def fieldRows (F : List (String × Arr α) → V → V) (m : Marshalled G V α) : List V :=
+  (List.range m.n).map fun i =>
+    match m.orientation[i]?, m.position[i]?, m.observers[i]? with
+    | some r, some p, some x => r • F (paramSet m i) (r⁻¹ • (x - p))
+    | _, _, _ => 0
+
+/-- the whole of getBH_dict_level2: `tables` is the registry (class name ↦ `_field_func_kwargs_ndim`); the result is
+the (n, 3) array, `np.squeeze`d (n = 1 ⇒ shape (3,)) if `squeeze` — `shape` lists the axes before the final 3 -/
+def call (tables : List (String × List (String × Nat))) (cls : String)
+    (F : List (String × Arr α) → V → V) (c : Call G V α) : Except CallErr (Level2.Out V) :=
+  match tables.lookup cls with
+  | none => .error .badUserInput
+  | some table =>
+    match marshal table c with
+    | .error e => .error e
+    | .ok m => .ok { shape := if c.squeeze then [m.n].filter (· ≠ 1) else [m.n], data := fieldRows F m }
+end
 
 end MagpyVerif.DictIface
